@@ -9,7 +9,7 @@
    sets in harness area simprops. *)
 From Coq Require Import ZArith List Bool.
 From Model Require Import Bits Word Instr Sim.
-From Proofs Require Import SimAccess SimObs IrqProofs SimStepObs.
+From Proofs Require Import SimAccess SimObs IrqProofs SimStepObs SimObsEntry.
 Import ListNotations.
 Open Scope Z_scope.
 
@@ -93,6 +93,43 @@ Theorem C28_sti_marks : forall e sr off s s' u,
                 if word_eqb (mget (s_mem s1) (w_data w)) (rget (s_regs s1) sr) then o else obs_update o (w_data w) OBS_MODIFIED).
 Proof. exact exec_obs_sti. Qed.
 Print Assumptions C28_sti_marks.
+
+(* RTI: its two stack pops are marked READ *)
+Theorem C28_rti_marks_pops : forall e s s' u,
+  exec e SRTI s = (s', inl u) ->
+  let sp := w_data (rget (s_regs s) 6) in
+  s_obs s' = obs_update (obs_update (s_obs s) sp OBS_READ) (wrap16 (sp + 1)) OBS_READ.
+Proof. exact exec_obs_rti. Qed.
+Print Assumptions C28_rti_marks_pops.
+(* entry into a trap, exception or interrupt routine (stack slots and vector in ordinary memory): the two pushes
+   below the supervisor stack pointer are marked WRITTEN, and MODIFIED iff the word changes ([wmark]); the vector
+   entry is marked READ; nothing else *)
+Theorem C28_wmark_def : forall o a old new,
+  wmark o a old new = let o1 := obs_update o a OBS_WRITTEN in if word_eqb old new then o1 else obs_update o1 a OBS_MODIFIED.
+Proof. reflexivity. Qed.
+Print Assumptions C28_wmark_def.
+Theorem C28_entry_sp_def : forall s,
+  entry_sp s = if psr_privileged (s_psr s) then w_data (rget (s_regs s) 6) else w_data (s_saved_sp s).
+Proof. reflexivity. Qed.
+Print Assumptions C28_entry_sp_def.
+Theorem C28_interrupt_entry_marks : forall e v p s s' u,
+  List.length (s_regs s) = 8%nat -> psr_priority (s_psr s) < p ->
+  handle_interrupt e v (Some p) s = (s', inl u) ->
+  let a1 := wrap16 (entry_sp s - 1) in let a2 := wrap16 (entry_sp s - 2) in
+  (IO_START <=? a1) = false -> (IO_START <=? a2) = false -> (IO_START <=? v) = false ->
+  s_obs s' = obs_update (wmark (wmark (s_obs s) a1 (mget (s_mem s) a1) (new_init (s_psr s)))
+                                a2 (mget (s_mem s) a2) (new_init (s_pc s))) v OBS_READ.
+Proof. exact interrupt_entry_obs. Qed.
+Print Assumptions C28_interrupt_entry_marks.
+Theorem C28_trap_entry_marks : forall e v s s' u,
+  List.length (s_regs s) = 8%nat ->
+  handle_interrupt e v None s = (s', inl u) ->
+  let a1 := wrap16 (entry_sp s - 1) in let a2 := wrap16 (entry_sp s - 2) in
+  (IO_START <=? a1) = false -> (IO_START <=? a2) = false -> (IO_START <=? v) = false ->
+  s_obs s' = obs_update (wmark (wmark (s_obs s) a1 (mget (s_mem s) a1) (new_init (s_psr s)))
+                                a2 (mget (s_mem s) a2) (new_init (s_pc s))) v OBS_READ.
+Proof. exact trap_entry_obs. Qed.
+Print Assumptions C28_trap_entry_marks.
 
 (* whole steps.  A completed step that takes no interrupt is the fetch — one tracked read of the
    PC into the emptied observer — followed by the instruction the fetched word decodes to; the
